@@ -15,6 +15,9 @@ META = {
 }
 
 
+FORMAT_SPECS = ('h', 'A', 'a', '!z', '!x', '!b', 'hA')
+
+
 def allene_centres(m):
     """for exclusion (i): an allene label on a central atom concerns the substituents of the two terminal atoms"""
     out = []
@@ -89,7 +92,8 @@ def check_descriptions(acc, m0, tag, numberings, chooser_bound, rdkit_text=None,
         if str(c) != ref_s or hash(c) != ref_h or not (c == ref):
             bad('canonical string depends on which derived value is read first (%s)' % first, got=str(c), expected=ref_s)
             break
-    # 1. renumberings
+    # 1. renumberings (the plain string, hash, equality; the strings written with format options, which share the canonical order)
+    ref_f = {spec: format(ref, spec) for spec in FORMAT_SPECS}
     for p in numberings:
         acc.states += 1
         acc.transitions += 1
@@ -98,6 +102,14 @@ def check_descriptions(acc, m0, tag, numberings, chooser_bound, rdkit_text=None,
         if str(c) != ref_s or hash(c) != ref_h or not (c == ref):
             bad('canonical string depends on atom numbering', numbering=list(p), got=str(c), expected=ref_s)
             break
+        for spec in FORMAT_SPECS:
+            acc.transitions += 1
+            if format(c.copy(), spec) != ref_f[spec]:
+                bad('string written with a format option depends on atom numbering (%s)' % spec, numbering=list(p), got=format(c.copy(), spec), expected=ref_f[spec])
+                break
+        else:
+            continue
+        break
     # 2. API construction orders
     if api_spec is not None:
         n = len(api_spec['atoms'])
